@@ -1135,7 +1135,8 @@ impl ByteCodeGenerator {
                 // Build dense array: fill with default, then set specific case offsets
                 // Add one extra slot at the end for the default offset (used for out-of-range values)
                 let table_size = (max_val - min_val + 1) as usize + 1; // +1 for default slot
-                let offsets = case_offsets.iter().fold(
+                // (of several arms with the same key the first one wins, as on the WASM backend)
+                let offsets = case_offsets.iter().rev().fold(
                     vec![default_offset; table_size],
                     |mut offsets, (lit_val, offset)| {
                         offsets[(lit_val - min_val) as usize] = *offset;
